@@ -33,7 +33,7 @@ Definition st_reset (s : lstate T) (size : nat) : lstate T :=
      st_min := clear_resize (st_min s) size (k_inf K);
      st_set := u_reset (st_set s) size;
      st_chain := clear_resize (st_chain s) size 0;
-     st_queue := h_reset (k_max K) (st_queue s) size;
+     st_queue := h_reset (k_inf K) (st_queue s) size;
      st_nearest := clear_resize (st_nearest s) size 0 |}.
 
 Definition st_with_sizes (s : lstate T) v := {| st_sizes := v; st_active := st_active s; st_min := st_min s; st_set := st_set s; st_chain := st_chain s; st_queue := st_queue s; st_nearest := st_nearest s |}.
